@@ -1,6 +1,6 @@
 """props.py: per-property configuration of ./check"""
 
-GENERATORS = ['gen.py', 'gen_deps.py', 'gen_files.py']
+GENERATORS = ['gen.py', 'gen_deps.py', 'gen_files.py', 'gen_units.py']
 
 PROPS = {
     'C01': dict(
@@ -265,5 +265,32 @@ PROPS = {
                    'exception when table headers are text.',
         level_note='Model compared with the real loader on every single fault of the shipped example and of stored generated pipelines (outcome '
                    'class incl. foreign exception classes, and every loaded field). The search enumerates the faults on real files.',
+    ),
+    'C17': dict(
+        own_files=['Lemmas/LC17.v', 'Lemmas/LC17u.v', 'Props/C17.v'],
+        corr=[dict(script='corr_viewer.py', n=60, n_thorough=400)],
+        search='C17.py', budget_quick=300, budget_thorough=6000,
+        partial=['C17 no callback raises: proved for the bounded re-entry (a restored text re-enters its callback at most once); that the '
+                 'library calls made by the callbacks and by the System tab (curve generation, operating point) do not raise is C02/C10 and is '
+                 'observed on the real viewer by the event search, not proved here',
+                 'C17 plotted data equal a fresh slurry: in the model this is C07 applied to the viewer\'s slurry (every event is a sequence '
+                 'of SlurryState operations ending in a read of the curves); the composition is not restated as a C17 theorem; the search '
+                 'compares every data source with a freshly built Slurry after every event',
+                 'C17 System-tab displays and per-section slurries: the unit factors are proved (0.2 %), the Dp-reset rule is in the model; '
+                 'the System tab\'s formatting of each display and the per-diameter copies (C09) are checked on the real viewer by the search',
+                 'C17 NaN entries: over the reals there is no NaN; that "nan" is rejected is decided by the binary64 correspondence (the '
+                 'model rejects it because both comparisons are false)',
+                 'C17 Cv >= 0.01: holds for every event except a mixture-density entry, whose exact escape condition is a theorem '
+                 '(C17_rhom_escape); the D15/D50/D85 geometric bounds (D85 <= Dp/2, D50 <= Dp/4, D15 >= 0.04 mm) are validated on entry but are '
+                 'not invariants of the code (a later Dp or proportional D50 change can leave them) and are tracked, not proved'],
+        level_text='Proof (state machine of the slurry tab and top bar over the reals, for any formatting and parsing functions): check_value '
+                   'accept/reject; an accepted entry sets exactly its own model field(s), a rejected one leaves every parameter unchanged '
+                   '(re-entrant callback included); for every event sequence 25 <= Dp*1000 <= 1500, 1.5 <= rhos <= 7, Cv <= 0.5 and Dp is a '
+                   'section diameter in every pipeline; Cv >= 0.01 except through the mixture-density box (exact condition proved); after every '
+                   'event every box shows the formatted model value; a restored text re-enters its callback at most once; US unit factors '
+                   'within 0.2 % of the exact conversions, SI factors exact.',
+        level_note='Model compared bit-exactly (parameters, D15/D85, fluid, radio button and the text of all seven boxes) with the real main.py + '
+                   'SystemTab.py under the bokeh double tools/fakebokeh on event sequences (singles, pairs, random depth 15). The search runs '
+                   'the real viewer and checks every clause of the property after every event.',
     ),
 }
